@@ -1,4 +1,4 @@
-import Knut.Proofs.PrintParseDirs
+import Knut.Proofs.PrintParseTx
 /-!
 # C09 (text level) — what `journal.Print` writes is read back by the loader as the same directive
 
@@ -19,7 +19,15 @@ directive. `Printable…` are decidable and state what the real scanner needs:
 `C09_text_items` is the engine for whole files: a text that is a rendering of *items* (directives in canonical layout,
 comment and blank lines) parses, and loads to the elaboration of the items' field views, in order.
 
-Not proved (see `DESIGN_C09Text.md`): transactions and the lift to `JournalPrinter.print` of whole journals
+`C09_text_transaction`: a printed transaction (any padding, with or without `@performance` targets, any Unicode
+description without `"`) loads back to exactly that transaction, provided it is in the booking normal form of
+`C09_booking_normal_form` (its posting list is what the printed bookings rebuild; negative bookings are thereby
+covered: the printer writes the swapped accounts and the positive amount). The printer replaces `"` by `'` in the
+description with `String.replace`, which core Lean neither characterises by lemmas nor lets the kernel evaluate
+(it runs on `WellFounded.opaqueFix` iterators); `PrintableTx` therefore carries both `'"' ∉ description` and
+`description.replace "\"" "'" = description` — the second follows from the first in fact, but not provably here.
+
+Not proved (see `DESIGN_C09Text.md`): the lift to `JournalPrinter.print` of whole journals
 (`C09_text_journal_fixpoint` below is stated, not proved).
 -/
 namespace Knut.C09
@@ -41,6 +49,10 @@ theorem C09_text_price (path : String) (p : Price) (hd : PrintableDate p.date) (
 /-- `balance`, one balance on the line or several on the following lines, as `printAssertions` writes it -/
 theorem C09_text_assertion (path : String) (a : Assertion) (h : PrintableAssertion a) :
     loadText path (strBytes (printAssertions [a])) = .ok [.assertion a] := load_assertion path a h
+
+/-- a transaction as `printTx` writes it, for every padding -/
+theorem C09_text_transaction (pad : Nat) (path : String) (t : Transaction) (h : PrintableTx t) :
+    loadText path (strBytes (printTx pad t)) = .ok [.tx t] := load_tx pad path t h
 
 /-- the engine for whole files: a rendering of items parses and loads to the elaboration of the items' views -/
 theorem C09_text_items (padding : Nat) (path : String) (items : List Syntax.Item) (h : ItemsShape items) :
@@ -65,8 +77,7 @@ theorem C09_text_journal_fixpoint (path : String) (j : List Day)
                                 d.assertions.map .assertion ++ d.closings.map .closing) ∧
         print (Builder.ofList ds).build = print j
 
-Missing: (1) the transaction case (printTx ↔ renderT with padding, `String.replace` on the description, `Accrual.create`
-of the re-read bookings = the original postings via `C09_booking_normal_form`); (2) `print j` as a rendering of items
+Missing: (1) [done: `C09_text_transaction`]; (2) `print j` as a rendering of items
 (per day: directives followed by line breaks and blank lines) to feed `C09_text_items`; (3) `Builder.ofList` of the
 loaded directives rebuilds the same days.
 -/
@@ -98,5 +109,31 @@ example : loadText "j" (strBytes (printAssertions [⟨737424, [⟨⟨["Assets", 
     rcases hb with rfl | rfl
     · exact ⟨by decide +kernel, by decide, by decide +kernel⟩
     · exact ⟨by decide +kernel, by decide, by decide +kernel⟩⟩
+
+/-- a transaction with a Unicode description, `@performance` targets and a negative booking (printed swapped, as 12.5).
+`String.replace` cannot be evaluated by the kernel, so its being the identity on this description is a hypothesis. -/
+def exTx : Transaction :=
+  { date := 737424, description := "Café – Miete",
+    postings := postingBuild ⟨["Assets", "Bank"]⟩ ⟨["Expenses", "Wohnen"]⟩ "CHF" (mkRat (-25) 2),
+    targets := some ["USD", "CHF"] }
+
+example (hrep : exTx.description.replace "\"" "'" = exTx.description) :
+    loadText "j" (strBytes (printTx 14 exTx)) = .ok [.tx exTx] :=
+  C09_text_transaction 14 "j" exTx ⟨by decide, by decide, hrep, by decide, by
+    intro p hp
+    have : everyOther exTx.postings =
+        [{ account := ⟨["Assets", "Bank"]⟩, other := ⟨["Expenses", "Wohnen"]⟩, commodity := "CHF", quantity := mkRat 25 2 }] := by
+      decide +kernel
+    rw [this] at hp
+    simp only [List.mem_singleton] at hp
+    subst hp
+    exact ⟨by decide +kernel, by decide +kernel, by decide, by decide +kernel⟩, by decide +kernel, by
+    intro tg htg c hc
+    have : tg = ["USD", "CHF"] := by
+      have : exTx.targets = some ["USD", "CHF"] := rfl
+      rw [this] at htg; injection htg with htg; exact htg.symm
+    subst this
+    simp only [List.mem_cons, List.not_mem_nil, or_false] at hc
+    rcases hc with rfl | rfl <;> decide +kernel⟩
 
 end Knut.C09
